@@ -146,7 +146,9 @@ def select_start_nodes(td, env, num_starts):
         env: Environment may determine the node selection strategy
         num_starts: Number of nodes to select. This may be passed when calling the policy directly. See :class:`rl4co.models.AutoregressiveDecoder`
     """
-    num_loc = env.generator.num_loc if hasattr(env.generator, "num_loc") else 0xFFFFFFFF
+    # size of the instances at hand (not of the env's generator: a model is routinely run on other sizes)
+    num_nodes = td["action_mask"].shape[-1]
+    num_loc = num_nodes if env.name in ["tsp", "atsp", "flp", "mcp"] else num_nodes - 1
     if env.name in ["tsp", "atsp", "flp", "mcp"]:
         selected = (
             torch.arange(num_starts, device=td.device).repeat_interleave(td.shape[0])
